@@ -66,6 +66,8 @@ def histories(tier, rng):
             else:
                 d = gens.make_ro(['X'], message_id=20 + j)
             t = gens.vary_envelope(rng, with_cr(to_text(d)))
+            if rng.random() < 0.1:
+                t = gens.mutate_doc(rng, t, state, n=1)
             msgs.append(t)
             if d[3].tag == 'roDelete' and rng.random() < 0.6:
                 msgs.append(to_text(ro_delete(60 + j)))          # a second roDelete must be refused: one completion record
@@ -76,6 +78,13 @@ def histories(tier, rng):
                 except Exception:
                     pass
         yield {'ro': ro, 'msgs': msgs}
+
+
+def safe(fn):
+    try:
+        return fn()
+    except Exception as e:
+        return ('raises', type(e).__name__)
 
 
 def has_cr(tree):
@@ -116,8 +125,8 @@ class Check:
         ser_lines, ser_want, parse_lines, parse_want, where = [], [], [], [], []
         for ci, c in enumerate(cases):
             ro = RunningOrder.from_string(c['ro'])
-            orig_mid = ro.message_id
-            orig_roid = ro.ro_id
+            orig_mid = safe(lambda: ro.message_id)
+            orig_roid = safe(lambda: ro.ro_id)
             had_replace = False
             for k, mt in enumerate(c['msgs']):
                 try:
@@ -160,9 +169,9 @@ class Check:
                     kids = [x[0] for x in tree[4]]
                     if kids.count('roCreate') != 1 or kids.count('mosromgrmeta') > 1:
                         what = 'after step %d (%s) the envelope has %d running-order elements and %d completion records' % (k, cls, kids.count('roCreate'), kids.count('mosromgrmeta'))
-                    elif ro.message_id != orig_mid:
+                    elif safe(lambda: ro.message_id) != orig_mid:
                         what = 'after step %d (%s) the message ID changed' % (k, cls)
-                    elif ro.ro_id != orig_roid and cls != 'RunningOrderReplace' and not had_replace:
+                    elif safe(lambda: ro.ro_id) != orig_roid and cls != 'RunningOrderReplace' and not had_replace:
                         what = 'after step %d (%s) the running-order ID changed' % (k, cls)
                 if cls == 'RunningOrderReplace' and not err:
                     had_replace = True
